@@ -491,7 +491,7 @@ var kinds = []kindSpec{
 	{"UnknownCRD-ReplicaSet", bUnknownRS, true},
 }
 
-// scenarios of a tier. quick: 12 chains x n in 1..3, one flavour each (rotating); thorough: 20 chains x (n in 1..3 x 4 flavours + n=4 x 1 flavour).
+// scenarios of a tier. quick: 12 chains x n in 1..3, one flavour each (rotating); thorough: 20 chains x (n in 1..2 x 4 flavours + n=3 x 2 flavours + n=4 x 1 flavour).
 func scenarios(tier string) []*scenario {
 	var out []*scenario
 	for ki, k := range kinds {
@@ -504,8 +504,16 @@ func scenarios(tier string) []*scenario {
 		}
 		for n := 1; n <= maxN; n++ {
 			for fi := range flavours {
-				if (tier != "thorough" || n == 4) && fi != (ki+n)%len(flavours) {
-					continue
+				rot := (ki + n) % len(flavours)
+				switch {
+				case tier != "thorough" || n == 4:
+					if fi != rot {
+						continue
+					}
+				case n == 3:
+					if fi != rot && fi != (rot+2)%len(flavours) {
+						continue
+					}
 				}
 				sc := k.b(n, flavours[fi])
 				sc.N = len(sc.Pods)
